@@ -362,3 +362,19 @@ func PBKDF2SHA512(password, salt []byte, iter, keyLen int) []byte {
 func Seed(mnemonic, passphrase string) []byte {
 	return PBKDF2SHA512([]byte(NFKD(mnemonic)), []byte("mnemonic"+NFKD(passphrase)), 2048, 64)
 }
+
+// SHA256First returns the first byte of SHA-256(b).
+func SHA256First(b []byte) byte {
+	h := sha256.Sum256(b)
+	return h[0]
+}
+
+// LangByName returns the language with the given declared identifier.
+func LangByName(name string) (Lang, bool) {
+	for l := Lang(0); l < NumLangs; l++ {
+		if infos[l].Name == name {
+			return l, true
+		}
+	}
+	return 0, false
+}
